@@ -93,12 +93,29 @@ theorem mkdirRoot_pres (h : OpsPres f I) (env : Env) (root : Name) (perm : Int) 
   repeat (first | with_reducible exact mknod_pres h env _ _ _ _ _ _ | pres_step)
 
 theorem initFs_pres (h : OpsPres f I) (env : Env) (root : Name) (perm : Int) : Pres I (initFs f env root perm) := by
+  constructor
+  intro w hw
   have hs := h.stable
   unfold initFs
-  repeat (first
-    | with_reducible exact mkdirRoot_pres h env _ _
-    | with_reducible exact Pres.op (fun w hw => h.rebuild w hw)
-    | pres_step)
+  have hq : I { w with idx := (w.idx.getRootPath).1 } := hs w _ (Idx.getRootPath_rows w.idx) hw
+  rcases hg : w.idx.getRootPath with ⟨q, res⟩
+  rw [hg] at hq
+  simp only at hq
+  cases res with
+  | ok r => exact hq
+  | error e =>
+    cases e <;> try exact hq
+    simp only
+    split
+    · exact hq
+    · split
+      · exact (mkdirRoot_pres h env root perm).run _ hq
+      · have hr := h.rebuild _ hq
+        rcases hrb : rebuildOp f { tape := w.tape, idx := q, stuck := w.stuck } with ⟨w2, e2⟩
+        rw [hrb] at hr
+        cases e2 with
+        | none => exact hs w2 _ (Idx.getRootPath_rows w2.idx) hr
+        | some e => exact (mkdirRoot_pres h env root perm).run _ hr
 
 theorem mkdir_pres (h : OpsPres f I) (env : Env) (name : Name) (perm : Int) : Pres I (mkdir f env name perm) :=
   Pres.bind (mkdirGuard_ro h.stable f name) (fun _ => mknod_pres h env _ _ _ _ _ _)
@@ -235,12 +252,21 @@ theorem hReaddir_pres (h : OpsPres f I) (hd : Handle) (n : Int) : Pres I (hReadd
   unfold hReaddir
   repeat (first | with_reducible exact list_pres h _ _ | pres_step)
 
-theorem cat_pres' (hs : RowStable I) (env : Env)
+theorem fetchedHeader_ro (hs : RowStable I) (f : FsCfg) (path : Name) : Pres I (fetchedHeader f path) := by
+  unfold fetchedHeader
+  repeat pres_step
+
+theorem cat_pres' (hs : RowStable I) (hst : ∀ w, I w → I { w with stuck := true }) (env : Env)
     (hm : ∀ a b c d e g, Pres I (mknod f env a b c d e g)) (name : Name) : Pres I (cat f env name) := by
   unfold cat
-  repeat (first | exact (openFile_pres' hs env hm _ _ _ : Pres I (fsOpen f env _)) | with_reducible exact restoreContent_ro hs f _ | pres_step)
+  repeat (first
+    | exact (openFile_pres' hs env hm _ _ _ : Pres I (fsOpen f env _))
+    | with_reducible exact restoreContent_ro hs f _
+    | with_reducible exact fetchedHeader_ro hs f _
+    | with_reducible exact Pres.wedge hst _
+    | pres_step)
 
 theorem cat_pres (h : OpsPres f I) (env : Env) (name : Name) : Pres I (cat f env name) :=
-  cat_pres' h.stable env (fun _ _ _ _ _ _ => mknod_pres h env _ _ _ _ _ _) name
+  cat_pres' h.stable h.stuck env (fun _ _ _ _ _ _ => mknod_pres h env _ _ _ _ _ _) name
 
 end Stfs
